@@ -2,7 +2,7 @@
 """Checker self-test: apply catalogued one-point edits to a scratch copy of the
 sources (never to /repo) and run the static checks against the copy.
 
-  selftest/run.py [--prop Cnn] [--id ID] [-v]
+  selftest/run.py [--prop Cnn] [--id ID] [--prefix IDPREFIX] [-v]
 
 A `mutant` must be reported (exit 1 and a violation whose key contains the
 expected text); a `benign` edit must stay silent (exit 0).  Scratch copies live
@@ -137,8 +137,9 @@ def main(argv):
         prop = argv[argv.index("--prop") + 1]
     if "--id" in argv:
         ident = argv[argv.index("--id") + 1]
+    prefix = argv[argv.index("--prefix") + 1] if "--prefix" in argv else ""
     cat = load_catalogue()
-    sel = [e for e in cat if (prop is None or prop in e["props"]) and (ident is None or e["id"] == ident)]
+    sel = [e for e in cat if (prop is None or prop in e["props"]) and (ident is None or e["id"] == ident) and e["id"].startswith(prefix)]
     if prop:
         for e in sel:
             e["props"] = [prop]
